@@ -147,6 +147,8 @@ C18_UNITS = [
 
 C03_SCANNER_UNITS = [
     KUnit("c03_scanner_range_in_bounds", "scanner_step", SCANNER, ["lexer::scanner::Scanner::next_char", "Scanner::range"],
+          kind="bounded", bound="text = exactly 3 arbitrary chars (1-4 bytes each) then end of input; for longer texts the "
+                                 "char-boundary invariant rests on the one-step contract c18_next_char_step plus std CharIndices",
           inputs=[("c0", "char"), ("c1", "char"), ("c2", "char")], replay=_replay_range,
           note="index is a char boundary <= len after every step over three arbitrary chars; range() between indices never panics"),
 ]
@@ -303,8 +305,10 @@ def _replay_skip(v):
 
 C09_UNITS = _c09_layout_units() + [
     KUnit("c09_skip_whitespace_and_comments", "lexer_layout", LEXER, ["lexer::Lexer::skip_whitespace_and_comments"],
-          kind="proof", inputs=[("c0", "char"), ("c1", "char"), ("c2", "char")], replay=_replay_skip,
-          note="three arbitrary chars then end of input; longer runs of blanks/comments follow by repeating the same loop body"),
+          kind="bounded", bound="text = exactly 3 arbitrary chars then end of input (all 1-4 byte chars; runs of blanks / comment "
+                                 "text longer than 3 chars are not covered)",
+          inputs=[("c0", "char"), ("c1", "char"), ("c2", "char")], replay=_replay_skip,
+          note="three arbitrary chars then end of input; longer runs of blanks/comments repeat the same loop body"),
 ]
 
 
